@@ -22,6 +22,8 @@ pub fn latency(max_ms: u64) -> BoxedStrategy<Lat> {
         4 => (1..=steps).prop_map(|k| Lat::Ms(k * 10)),
         3 => (1..=max_ms).prop_map(Lat::Ms),
         1 => Just(Lat::Never),
+        // completes with the task's cooperative budget used up
+        1 => (0..=steps).prop_map(|k| Lat::MsDrain(k * 10)),
     ]
     .boxed()
 }
